@@ -246,4 +246,31 @@ Proof.
   induction lk as [|k lk IHk]; intro a; [reflexivity|]. cbn [fold_left]. rewrite IHk. unfold step. apply setK_length.
 Qed.
 
+
+(* the loop of glamfit_complex is the flat recurrence: with s2 = stride of monodim, nm = naxes[monodim]:
+   R[q] = fadd a[q] R[q - s2] when the index of q along monodim is >= 1 (q mod (s2*nm) >= s2), R[q] = a[q] otherwise *)
+Theorem backtransform_spec (naxes : list nat) (md : nat) (a : list K) :
+  wf_call naxes md a ->
+  let nm := nth md naxes 0 in
+  let s2 := prodn (skipn (S md) naxes) in
+  let R := backtransform fadd dflt naxes md a in
+  1 <= nm -> 1 <= s2 ->
+  length R = length a /\
+  forall q, q < length a ->
+    (s2 <= q mod (s2 * nm) -> get R q = fadd (get a q) (get R (q - s2))) /\
+    (q mod (s2 * nm) < s2 -> get R q = get a q).
+Proof.
+  intros [Hmd Hlen] nm s2 R Hnm Hs2. subst R. unfold backtransform.
+  rewrite (strides_loop_spec naxes 0 md 1 1 ltac:(lia) ltac:(lia)).
+  rewrite Nat.sub_0_r, !Nat.mul_1_l. fold nm. fold s2.
+  rewrite (loop_i_flat nm s2 Hnm Hs2).
+  assert (Ht : prodn (firstn md naxes) * (s2 * nm) = length a).
+  { rewrite Hlen. fold (prodn naxes). rewrite (prodn_split naxes md Hmd). fold nm. fold s2. lia. }
+  rewrite Ht.
+  destruct (flat_loop_spec nm s2 Hnm Hs2 a (length a) ltac:(lia)) as [L [_ [I2 I3]]].
+  split; [exact L|]. intros q Hq. split; intro G.
+  - apply I2; [exact Hq|]. unfold guard. apply Nat.leb_le. exact G.
+  - apply I3; [exact Hq|]. unfold guard. apply Nat.leb_gt. exact G.
+Qed.
+
 End Gen.
